@@ -11,6 +11,10 @@ func doReplay(line string) {
 		fmt.Println("cannot parse case:", line)
 		return
 	}
+	if tag == 70 || tag == 73 || tag == 74 {
+		doc, _ := decDoc(args[3:])
+		fmt.Printf("TEXT %q\n", renderText(doc, args[2]))
+	}
 	outs := impls[tag](args)
 	parts := make([]string, len(outs))
 	for i, o := range outs {
